@@ -157,7 +157,9 @@ section compose
 variable {κ : Type} [DecidableEq κ] [LT κ] [DecidableLT κ] [LE κ] [DecidableLE κ] (mkKey : Nat → Nat → κ)
 variable {α : Type} [Semiring α] [DecidableEq α]
 
-/-- **ULVS composes along a tree path**: for superelements `a → b → c` (`b` strictly between: `a ≠ b`, `b ≠ c`,
+/-- `formulvs_path_composes` with only the rectangularity of the levels as shape hypothesis (what the proof uses)
+
+**ULVS composes along a tree path**: for superelements `a → b → c` (`b` strictly between: `a ≠ b`, `b ≠ c`,
 `a ≠ c`, neither `a` nor `b` is its own downstream SE, and the walk from `a` down to `b` does not meet `c`),
 whenever the three calls return, `formulvs(nas, a, c) = formulvs(nas, a, b) @ formulvs(nas, b, c)` - in the order
 the code multiplies (upstream factor on the left), without the shortcut, for any `keepcset` / `gset`.
@@ -165,7 +167,7 @@ the code multiplies (upstream factor on the left), without the shortcut, for any
 Shape hypothesis (`hshape`): the level matrices along the walk from `a` to `c` pass the decidable test
 `ShapesAgree` (rectangular arrays whose inner dimensions agree); only the rectangularity is used - the inner
 dimensions are what `np.dot` checks itself (`dotChain_one_append` is an equality of `Except` values). -/
-theorem formulvs_path_composes (mk : Masks) (d : NasT α) (a b c : Nat) (kc gset : Bool) (uab ubc uac : Ulvs α)
+theorem formulvs_path_composes_rect (mk : Masks) (d : NasT α) (a b c : Nat) (kc gset : Bool) (uab ubc uac : Ulvs α)
     (hab : formulvs mkKey mk d none a b kc false gset = .ok uab)
     (hbc : formulvs mkKey mk d none b c kc false gset = .ok ubc)
     (hac : formulvs mkKey mk d none a c kc false gset = .ok uac)
@@ -173,10 +175,10 @@ theorem formulvs_path_composes (mk : Masks) (d : NasT α) (a b c : Nat) (kc gset
     (ha : ¬ Downstream d.nas.selist a a) (hb : ¬ Downstream d.nas.selist b b)
     (hpath : ∀ sd p₁, Downstream d.nas.selist a sd →
       ulvsPath d.nas.selist b (d.nas.selist.length + 1) a sd = some p₁ → ∀ e ∈ p₁, e.2 ≠ c)
-    (hshape : ∀ sd p levels, Downstream d.nas.selist a sd →
+    (hrectl : ∀ sd p levels, Downstream d.nas.selist a sd →
       ulvsPath d.nas.selist c (d.nas.selist.length + 1) a sd = some p →
       List.Forall₂ (fun e L => ulvsLevel mkKey mk d e.1 e.2 kc gset = .ok L) p levels →
-      ShapesAgree levels = true) :
+      ∀ L ∈ levels, Rect L) :
     mulU uab ubc = .ok uac := by
   have third : ∀ (s t : Nat) (u : Ulvs α), formulvs mkKey mk d none s t kc false gset = .ok u → s ≠ t →
       ¬ Downstream d.nas.selist s s → ∃ sd, Downstream d.nas.selist s sd ∧
@@ -208,10 +210,34 @@ theorem formulvs_path_composes (mk : Masks) (d : NasT α) (a b c : Nat) (kc gset
   subst hsplit
   have hlev : l = l₁ ++ l₂ :=
     forall₂_fun_unique (fun e : Nat × Nat => ulvsLevel mkKey mk d e.1 e.2 kc gset) hl (forall₂_append' hl₁ hl₂)
-  have hrect := ShapesAgree_rect l (hshape sda' _ l hsda hp hl)
+  have hrect := hrectl sda' _ l hsda hp hl
   rw [hlev] at hc hrect
   rw [dotChain_one_append l₁ l₂ hrect, hc₁, hc₂] at hc
   exact hc
+
+/-- **ULVS composes along a tree path**: for superelements `a → b → c` (`b` strictly between: `a ≠ b`, `b ≠ c`,
+`a ≠ c`, neither `a` nor `b` is its own downstream SE, and the walk from `a` down to `b` does not meet `c`),
+whenever the three calls return, `formulvs(nas, a, c) = formulvs(nas, a, b) @ formulvs(nas, b, c)` - in the order
+the code multiplies (upstream factor on the left), without the shortcut, for any `keepcset` / `gset`.
+
+Shape hypothesis (`hshape`): the level matrices along the walk from `a` to `c` pass the decidable test
+`ShapesAgree` (rectangular arrays whose inner dimensions agree); only the rectangularity is used - the inner
+dimensions are what `np.dot` checks itself (`dotChain_one_append` is an equality of `Except` values). -/
+theorem formulvs_path_composes (mk : Masks) (d : NasT α) (a b c : Nat) (kc gset : Bool) (uab ubc uac : Ulvs α)
+    (hab : formulvs mkKey mk d none a b kc false gset = .ok uab)
+    (hbc : formulvs mkKey mk d none b c kc false gset = .ok ubc)
+    (hac : formulvs mkKey mk d none a c kc false gset = .ok uac)
+    (hab_ne : a ≠ b) (hbc_ne : b ≠ c) (hac_ne : a ≠ c)
+    (ha : ¬ Downstream d.nas.selist a a) (hb : ¬ Downstream d.nas.selist b b)
+    (hpath : ∀ sd p₁, Downstream d.nas.selist a sd →
+      ulvsPath d.nas.selist b (d.nas.selist.length + 1) a sd = some p₁ → ∀ e ∈ p₁, e.2 ≠ c)
+    (hshape : ∀ sd p levels, Downstream d.nas.selist a sd →
+      ulvsPath d.nas.selist c (d.nas.selist.length + 1) a sd = some p →
+      List.Forall₂ (fun e L => ulvsLevel mkKey mk d e.1 e.2 kc gset = .ok L) p levels →
+      ShapesAgree levels = true) :
+    mulU uab ubc = .ok uac :=
+  formulvs_path_composes_rect mkKey mk d a b c kc gset uab ubc uac hab hbc hac hab_ne hbc_ne hac_ne ha hb hpath
+    (fun sd p levels h1 h2 h3 => ShapesAgree_rect levels (hshape sd p levels h1 h2 h3))
 
 
 /-- the list `ulvsLevels` (the one the driver tests with `fshapes`) is the list of levels along the path -/
